@@ -11,6 +11,7 @@ def _pairs(r):
     nctx = len(vlib.read_ndjson(os.path.join(r.dir, "ctx.ndjson")))
     for row in rows:
         row["v"] = [None] * nctx
+        row["vf"] = [None] * nctx
         row["de"] = {}
         row["dr"] = {}
     cur = {}
@@ -23,6 +24,7 @@ def _pairs(r):
             row = rows[int(cur["i"]) - 1]
             j = int(cur["j"])
             row["v"][j - 1] = 1 if cur["v"] == "TRUE" else 0
+            row["vf"][j - 1] = 1 if cur["vf"] == "TRUE" else 0
             if cur["de"] != '"-"':
                 row["de"][str(j)] = cur["de"].strip('"')
             if cur["dr"] != '"-"':
@@ -39,7 +41,7 @@ def _pairs(r):
             if m:
                 cur[m.group(1)] = m.group(2)
     flush()
-    if n != len(rows) * nctx or any(x is None for row in rows for x in row["v"]):
+    if n != len(rows) * nctx or any(x is None for row in rows for x in row["v"] + row["vf"]):
         raise vlib.MachineryError("state dump has %d pairs, expected %d" % (n, len(rows) * nctx))
     if len(rows) + n != r.distinct:
         raise vlib.MachineryError("TLC reports %d states, dump+scripts give %d" % (r.distinct, len(rows) + n))
@@ -56,13 +58,20 @@ def run(chk, replay=None):
                 "under five order-isomorphic maps onto uint64 and through the native-script rule of the Allegra, Conway and "
                 "Dijkstra rule lists on signed transactions (all three for every pair of depth <= 2 scripts in the quick tier, otherwise "
                 "one of the three in rotation; other eras, maps, and the whole rule list rule by rule on a "
-                "sample); Hash() is compared with Blake2b-224(0x00 ++ bytes); a case is one (level, era, script, context, "
+                "sample; in the eras whose transactions carry the is_valid flag - Alonzo, Babbage, Conway in the envelope, "
+                "Dijkstra through its block's invalid_transactions set - also on the transaction flagged is_valid = false, "
+                "with the specification's verdict vf for the flagged transaction, which the invariant FlagIrrelevant proves "
+                "equal to the unflagged one: every leaf script, every 2nd (Conway) / 8th (Dijkstra, Alonzo, Babbage) other "
+                "script in the quick tier, every replayed script in the thorough tier); Hash() is compared with Blake2b-224(0x00 ++ bytes); a case is one (level, era, script, context, "
                 "encoding, map) tuple, all non-trivial")
     chk.assumptions = [
         "scripts only compare slots, so a strictly increasing map of the abstract time line preserves the verdict",
         "Blake2b-224 is collision free (the model proves the encodings of distinct scripts distinct)",
         "NativeScript.Evaluate is called the way its documentation says (validityStart 0 / validityEnd MaxUint64 when not set)",
         "scripts whose own array head is non-minimal are replayed only once F-C03 (property C03) is repaired",
+        "the factory's flagged transaction carries no redeemer: UtxoValidateIsValidFlag rejects it whatever its native script "
+        "(checked in the driver's baseline) and is set aside when the whole rule list is run on flagged transactions",
+        "a Dijkstra transaction is flagged the way its block decoder does it (TxIsValid = false on the decoded transaction)",
     ]
     drv = vlib.go_build("c29")
     if replay:
@@ -83,14 +92,16 @@ def run(chk, replay=None):
     pairs = os.path.join(r.dir, "pairs.ndjson")
     vlib.write_ndjson(pairs, rows)
     ctx = os.path.join(r.dir, "ctx.ndjson")
-    vlib.run_driver(chk, drv, [ctx, pairs], timeout=900 if thorough else 300)
+    eras = os.path.join(r.dir, "eras.ndjson")
+    chk.extra["c29_rule_eras"] = vlib.read_ndjson(eras)
+    vlib.run_driver(chk, drv, [ctx, pairs, eras], timeout=900 if thorough else 300)
     if thorough:
-        _binding_selftest(chk, drv, rows, ctx, r.dir)
+        _binding_selftest(chk, drv, rows, ctx, eras, r.dir)
     chk.exhaustive = False
 
 
-def _binding_selftest(chk, drv, rows, ctx, d):
-    """Flip one expected verdict of a few scripts: the driver must disagree on exactly those pairs."""
+def _binding_selftest(chk, drv, rows, ctx, eras, d):
+    """Flip one expected verdict (unflagged and flagged) of a few scripts: the driver must disagree on exactly those pairs."""
     picked = []
     for row in rows:
         if row["depth"] == 1 or len(picked) >= 4:
@@ -98,12 +109,13 @@ def _binding_selftest(chk, drv, rows, ctx, d):
         if not row["de"] and not row["dr"] and 0 < sum(row["v"]) < len(row["v"]):
             r2 = json.loads(json.dumps(row))
             r2["v"][0] = 1 - r2["v"][0]
+            r2["vf"][0] = 1 - r2["vf"][0]
             picked.append(r2)
     path = os.path.join(d, "selftest.ndjson")
     vlib.write_ndjson(path, picked)
     probe = vlib.Check(chk.pid, chk.tier, chk.seed)
     probe.findings = []
-    vlib.run_driver(probe, drv, [ctx, path], timeout=300)
+    vlib.run_driver(probe, drv, [ctx, path, eras], timeout=300)
     for _, _, rp in probe.violations:  # the probe's replay files are not findings
         if rp and os.path.exists(rp):
             os.remove(rp)
@@ -113,5 +125,7 @@ def _binding_selftest(chk, drv, rows, ctx, d):
     stray = [k for k, _, _ in probe.violations if not any(":s=%s:" % n in k for n in names)]
     if stray:
         raise vlib.MachineryError("binding self-test: disagreement outside the flipped scripts: %s" % stray[0])
+    if not any(k.endswith(":p2invalid") for k, _, _ in probe.violations):
+        raise vlib.MachineryError("binding self-test: no disagreement on a flagged (is_valid = false) pair")
     chk.extra["binding_selftest"] = "%d flipped verdicts, %d disagreements reported, all on the flipped pairs" % (
         len(picked), len(probe.violations))
